@@ -391,9 +391,16 @@ def _(c):
     x = [6.9e6 * 0.6, 6.9e6 * 0.5, 6.9e6 * 0.62, 0.0, 0.0, 0.0]
     sv = StateVector(x, date, "cartesian", "ITRF")
     via80 = np.asarray(sv.copy(frame="PEF").copy(frame="TOD").copy(frame="MOD").copy(frame="EME2000"), dtype=float)[:3]
-    via10 = np.asarray(sv.copy(frame="TIRF").copy(frame="CIRF").copy(frame="GCRF").copy(frame="EME2000"), dtype=float)[:3]
+    # the 2010 chain ends in GCRF (whose axes are EME2000's within the 23 mas frame bias).  NOT followed by a hop GCRF -> EME2000: the library has no direct link
+    # between the two and would walk the 2010 chain back down and the 1980 chain up again, so that the comparison would be the 1980 chain with itself
+    via10 = np.asarray(sv.copy(frame="TIRF").copy(frame="CIRF").copy(frame="GCRF"), dtype=float)[:3]
     ang = np.linalg.norm(via80 - via10) / np.linalg.norm(via80)
     c.ensure("chains_agree_0.1_arcsec", bool(ang <= math.radians(0.1 / 3600)))
+    # the celestial pole: CIRF -> GCRF sends the z axis of CIRF on (X, Y, sqrt(1 - X^2 - Y^2)) with X, Y the library's own series values (rad):
+    # the direction of the tilt, whatever the sign of X (negative before mid-2000)
+    X_, Y_, s_ = iau2010._xys(date)
+    zax = np.asarray(StateVector([0.0, 0.0, 1.0, 0, 0, 0], date, "cartesian", "CIRF").copy(frame="GCRF"), dtype=float)[:3]
+    c.ensure("cirf_pole_goes_to_XY", bool(np.linalg.norm(zax - np.array([X_, Y_, math.sqrt(1 - X_ * X_ - Y_ * Y_)])) <= 1e-12))
     # independent GMST-82 (Aoki 1982) and ERA (Capitaine 2000)
     # UT1 = UTC + (UT1-UTC printed on the line of that UTC day in finals.all, read here independently of the library)
     ut1_utc = _finals_ut1_utc().get(int(utc_date.mjd))
